@@ -74,6 +74,12 @@ def _programs(tier):
   P.append(dict(model="rnn_dense", limit={"SimpleRNN": [4, 4, 2, 6], "Dense": [4, 4, 4]}, layer_indexes=None, tune_filters="none"))
   P.append(dict(model="lstm_dense", limit={"LSTM": [8, 4, 2, 3], "Dense": [4, 4, 4]}, layer_indexes=None, tune_filters="none"))
   P.append(dict(model="sep_dense", limit={"SeparableConv2D": [8, 4, 3], "Dense": [4, 4, 4]}, layer_indexes=None, tune_filters="none"))
+  # a 4-element default [kernel, bias, recurrent, activation] completing short class entries: the activation slot of a
+  # non-recurrent class must receive the activation default, not the recurrent one
+  P.append(dict(model="lstm_dense_act", limit={"default": [4, 4, 8, 3], "Dense": [4], "LSTM": [4]}, layer_indexes=None,
+                tune_filters="none"))
+  P.append(dict(model="conv_dense", limit={"default": [4, 8, 8, 3], "Dense": [4], "Conv2D": [8, 4]}, layer_indexes=None,
+                tune_filters="none"))
   if tier == "thorough":
     P.append(dict(model="dense_act_dense", limit=lim_class, layer_indexes=None, tune_filters="layer", exceptions="^(d0|d1)$"))
     P.append(dict(model="grouped_convs", limit=lim_pattern, layer_indexes=[1, 2, 5], tune_filters="none"))
@@ -83,6 +89,12 @@ def _programs(tier):
 
 def enumerate_cases(tier, seed):
   out = [dict(sub="a", **p) for p in _programs(tier)]
+  # size model on hand-built models (quantizer present / absent per tensor): the trials of the search always quantize
+  # the bias, so the "reference width where none is applied" half of the clause is exercised here
+  for kq in (None, "quantized_bits(4,0,1)", "binary"):
+    for bq in (None, "quantized_bits(6,2,1)"):
+      for act in (None, "quantized_relu(3,1)", "relu", "softmax"):
+        out.append(dict(sub="c", kq=kq, bq=bq, act=act))
   for dp in (1, 8, 50):
     for dn in (1, 8, 50):
       for rate in (1.5, 2.0, 4.0):
@@ -121,6 +133,11 @@ def build_reference(mid):
     inp = L.Input((4, 3), name="inp")
     x = L.LSTM(3, name="lstm")(inp)
     x = L.Dense(2, name="d1")(x)
+  elif mid == "lstm_dense_act":
+    inp = L.Input((4, 3), name="inp")
+    x = L.LSTM(3, name="lstm")(inp)
+    x = L.Dense(3, activation="relu", name="d1")(x)
+    x = L.Dense(2, activation="relu", name="d2")(x)
   else:
     inp = L.Input((6, 6, 3), name="inp")
     x = L.SeparableConv2D(4, 2, activation="relu", name="sep")(inp)
@@ -172,6 +189,29 @@ def limit_for(limit, name, cls):
   return None, None, False
 
 
+def ref_adjust_limit(limit):
+  """Documented completion of the limit dictionary: 'default' is a number or [kernel, bias, (recurrent,) activation];
+  a class entry shorter than its role list is completed from the default, role by role."""
+  limit = copy.deepcopy(limit)
+  d = limit.get("default")
+  if d is None:
+    d = 8
+  if not isinstance(d, list):
+    d = [d, d, d, d]
+  elif len(d) == 3:
+    d = [d[0], d[1], d[0], d[2]]
+  for name, entry in list(limit.items()):
+    if name == "default" or name not in REGISTERED or not isinstance(entry, list):
+      continue
+    if name in SEQ:
+      full = [d[0], d[1], d[2], d[3]]
+      limit[name] = entry + full[len(entry):] if len(entry) < 4 else entry
+    else:
+      full = [d[0], d[1], d[3]]
+      limit[name] = entry + full[len(entry):] if len(entry) < 3 else entry
+  return limit
+
+
 def allowed(qc_role, lim):
   if isinstance(lim, list):
     return {k: qc_role[k] for k in lim}
@@ -194,7 +234,7 @@ def run_a(case):
   hm = AutoQKHyperModel(ref, ["acc"], target=target, limit=limit_arg, tune_filters=case["tune_filters"],
                         tune_filters_exceptions=case.get("exceptions", "^$"), layer_indexes=case["layer_indexes"],
                         quantization_config=copy.deepcopy(QC_SMALL), activation_bits=4)
-  limit = hm.limit          # after the library filled in defaults (bias / activation entries)
+  limit = ref_adjust_limit(case["limit"])   # the documented completion of short entries, recomputed independently
   leaves = 0
   outcomes = set()
   excluded_some = False
@@ -406,7 +446,57 @@ def run_b(case):
           "sample": {"sub": "b", "params": case, "size_pairs": evals}}
 
 
+def run_c(case):
+  tf = common.tf_init()
+  import qkeras  # pylint: disable=import-outside-toplevel
+  from qkeras.autoqkeras.forgiving_metrics import ForgivingFactorBits  # pylint: disable=import-outside-toplevel
+  viol = []
+  L = tf.keras.layers
+  inp = L.Input((5, 5, 3), name="inp")
+  x = qkeras.QConv2D(2, 2, kernel_quantizer=case["kq"], bias_quantizer=case["bq"], activation=case["act"], name="c")(inp)
+  x = L.Flatten(name="f")(x)
+  x = qkeras.QDense(3, kernel_quantizer=case["kq"], bias_quantizer=case["bq"], activation=case["act"], name="d")(x)
+  x = qkeras.QDense(2, kernel_quantizer=case["bq"], bias_quantizer=case["kq"], name="d2")(x)
+  m = tf.keras.Model(inp, x)
+  t = ForgivingFactorBits(8, 8, 2, input_bits=8, output_bits=8, ref_bits=8, config={"default": ["parameters", "activations"]})
+  t.get_trial(m)
+  evals = 0
+  for ql in m.layers:
+    c = ql.__class__.__name__
+    if c not in ("QConv2D", "QDense"):
+      continue
+    want_p = 0
+    for q, w in zip(ql.get_quantizers(), ql.get_weights()):
+      want_p += (q.bits if q is not None else 8) * int(np.prod(w.shape))
+    out_elems = int(np.prod(ql.output.shape[1:]))
+    act = ql.activation
+    nm = getattr(act, "__name__", "")
+    if act is None or nm == "linear":
+      want_a = 0
+    elif nm == "softmax":
+      want_a = 8 * out_elems
+    else:
+      want_a = (act.bits if hasattr(act, "bits") else 8) * out_elems
+    got = t.trial_size_dict[ql.name]
+    evals += 2
+    if int(got["parameters"]) != want_p:
+      viol.append({"key": "size-model:parameters", "what": "layer %s (kernel quantizer %r, bias quantizer %r): size model counts %r "
+                   "parameter bits, elements x applied bits (8 where none) gives %r" % (
+                       ql.name, str(ql.get_quantizers()[0]), str(ql.get_quantizers()[1]), got["parameters"], want_p),
+                   "detail": {"case": case}})
+      break
+    if int(got["activations"]) != want_a:
+      viol.append({"key": "size-model:activations", "what": "layer %s (activation %r): size model counts %r activation bits, "
+                   "expected %r" % (ql.name, str(act), got["activations"], want_a), "detail": {"case": case}})
+      break
+  return {"evals": evals, "transitions": 1, "nontrivial": int(case["kq"] is not None or case["bq"] is not None),
+          "state": "c:%r" % sorted((k, repr(v)) for k, v in case.items()), "digest": common.digest(repr(t.trial_size_dict)),
+          "violations": viol, "traces": 0, "sample": {"sub": "c", "case": case}}
+
+
 def run_case(case):
   common.tf_init()
   common.reset_keras()
+  if case["sub"] == "c":
+    return run_c(case)
   return run_a(case) if case["sub"] == "a" else run_b(case)
